@@ -16,6 +16,7 @@ CONSTANTS
   SyncStarts = {0, 1, 2, 3, 4}
   SyncEnds = {0, 1, 2, 3, 4}
   CapZeroUnbounded = FALSE
+  LastUncapped = FALSE
 VIEW View
 INVARIANTS TypeOK C10_PhysBound
 PROPERTIES C10_ReadWindow C10_Monotone C10_TrimCovered
